@@ -12,7 +12,7 @@ from ..engine.explore import Outcome
 PID = 'C17'
 TIMEOUT = 20.0
 RULE = ('all pairs of 1-feature arrays with 1..R rows over a 5-value alphabet and all pairs of 2-feature arrays with '
-        '1..3 rows over {0,1}^2, each x 5 K values x 3 bounds (15 calls per case), plus 72 larger permuted instances; '
+        '1..3 rows over {0,1}^2, each x 5 K values x 3 bounds (15 calls per case), the 1-feature family again on a 0.1-grid with bound 1.0 / 0.1 and on a 1.7e9 offset, plus 72 larger permuted instances; '
         'non-trivial = at least one pair matched and at least one x row left unmatched in some call')
 ASSUMPTIONS = ['distances recomputed with numpy; 1e-12 slack on K-NN membership and bound comparisons']
 
@@ -50,6 +50,14 @@ def cases(tier, seed):
     for x in arrays_1d(min(b['rows_1d'], 3)):
         for y in arrays_1d(min(b['rows_1d'], 3)):
             yield ('1d-mixed', x, y, seed)
+    # distances one rounding step either side of the bound (a 0.1-grid: 1.4 - 0.4 = 0.9999999999999999, 1.3 - 0.3 = 1.0)
+    for x in arrays_1d(3):
+        for y in arrays_1d(3):
+            yield ('1d-grid', x, y, seed)
+    # a large common offset (time stamps: 1.7e9 + seconds), where squared-norm expansions of the distance cancel
+    for x in arrays_1d(3):
+        for y in arrays_1d(3):
+            yield ('1d-offset', x, y, seed)
     for nx, ny in ((50, 50), (50, 200), (120, 60), (129, 140), (300, 300), (600, 257)):
         for nf in (1, 2, 3, 4):
             for px, py in ((1, 1), (7, 1), (1, 11), (7, 11), (13, 3), (3, 17)):
@@ -65,6 +73,12 @@ def build(case):
     if kind == '1d':
         lv = np.array(LEVELS[seed % len(LEVELS)], dtype=float)
         return lv[list(a)], lv[list(b)]
+    if kind == '1d-grid':
+        lv = np.array((0.4, 1.4, 2.4, 0.3, 1.3))
+        return lv[list(a)], lv[list(b)]
+    if kind == '1d-offset':
+        lv = 1.7e9 + np.array(LEVELS[seed % len(LEVELS)], dtype=float) * (1.0, 3.0, 7.0)[seed % 3]
+        return lv[list(a)], lv[list(b)] + 0.0
     if kind == '1d-mixed':
         xf = np.array((0.4, 0.9, 2.1, 2.9, 3.6))[list(a)]
         yi = np.array((0, 1, 2, 3, 10), dtype=np.int64)[list(b)]
@@ -106,7 +120,7 @@ def check_case(case):
     d = describe(case, x, y)
     ks = KS if case[0] != 'big' else (1, 2, 5, 15)
     for K in ks:
-        for bound in BOUNDS if case[0] != 'big' else (np.inf, 0.3, 0.02):
+        for bound in ((1.0, 0.1) if case[0] == '1d-grid' else BOUNDS) if case[0] != 'big' else (np.inf, 0.3, 0.02):
             try:
                 xi, yi = kdt_match(x.copy(), y.copy(), K=K, distance_upper_bound=bound)
             except Exception as e:
@@ -172,6 +186,6 @@ def snippet(case, kind):
 
 
 def nonvacuity(rep, ctx):
-    if not {'1d', '2d', 'big', '1d-mixed'} <= set(rep.classes):
+    if not {'1d', '2d', 'big', '1d-mixed', '1d-grid', '1d-offset'} <= set(rep.classes):
         return ['vacuous: outcome classes %r' % dict(rep.classes)]
     return []
